@@ -15,6 +15,8 @@ tm.USORTS.add(P256)
 p256_key = tm.FunDecl("p256.key", [BYTES], P256)
 p256_ok = tm.FunDecl("p256.is_point", [BYTES], BOOL)
 p256_str = tm.FunDecl("p256.to_string", [P256, STR], BYTES)
+k1_key = tm.FunDecl("secp256k1.ecdsa_key", [BYTES], P256)       # (same carrier sort: an abstract verifying key)
+k1_ok = tm.FunDecl("secp256k1.is_point", [BYTES], BOOL)
 
 Exception_ = I.builtin_exc("Exception")
 Malformed = LM.ext_class("ecdsa.keys.MalformedPointError", bases=[Exception_], is_exc=True)
@@ -25,6 +27,21 @@ LM.EXTERNAL_VALUES["ecdsa.SECP256k1"] = Opaque("curve:SECP256k1")
 @LM.register_external("ecdsa.VerifyingKey.from_string")
 def _from_string(ip, st, args, kwargs):
     b = args[0]
+    curve = kwargs.get("curve", args[1] if len(args) > 1 else None)
+    if not (isinstance(curve, Opaque) and curve.tag in ("curve:NIST256p", "curve:SECP256k1")) or set(kwargs) - {"curve"}:
+        raise Unsupported("VerifyingKey.from_string with a curve other than ecdsa.NIST256p / SECP256k1 (or further keyword arguments) is not modelled")
+    if curve.tag == "curve:SECP256k1":
+        # a key on the other curve: its own pair of uninterpreted functions, so that nothing stated about P-256 keys
+        # (C07: the attestation key and the certifier's key must be P-256 points) is true of it by accident
+        bt = to_term(b) if kind_of(b) == "bytes" else None
+        if bt is None:
+            raise Unsupported("VerifyingKey.from_string of a non-bytes value")
+        for st1, ok in ip.branch(st, as_value("bool", k1_ok(bt))):
+            if ok:
+                yield st1, Opaque("p256key", dict(key=k1_key(bt)))
+            else:
+                yield st1, Raise(st1.new_obj(Malformed, {"args": ("malformed point",)}))
+        return
     if kind_of(b) != "bytes":
         raise Unsupported("VerifyingKey.from_string of a non-bytes value")
     bt = to_term(b)
